@@ -1248,6 +1248,14 @@ void ppDiv(word q[], word r[], const word a[], size_t n, const word b[],
 		wwCopy(r, a, m);
 		return;
 	}
+	// b == 1?
+	if (m == 1 && b[0] == 1)
+	{
+		// q <- a, r <- 0
+		wwCopy(q, a, n);
+		r[0] = 0;
+		return;
+	}
 	// резервируем переменные в stack
 	divident = (word*)stack;
 	divisor = divident + n + 1;
@@ -1323,6 +1331,13 @@ void ppMod(word r[], const word a[], size_t n, const word b[], size_t m,
 		if (n < m)
 			wwSetZero(r + n, m - n), m = n;
 		wwCopy(r, a, m);
+		return;
+	}
+	// b == 1?
+	if (m == 1 && b[0] == 1)
+	{
+		// r <- 0
+		r[0] = 0;
 		return;
 	}
 	// резервируем переменные в stack
